@@ -105,6 +105,8 @@ def gen_table(rng, kinds=None, nrows=None):
             return None
         if k == 'int':
             return rng.choice([0, 1, -1, 42, -1000, 123456789])
+        if k == 'decimal' and rng.random() < 0.04:
+            return rng.choice([D('NaN'), D('Infinity'), D('-Infinity')])       # decimal("NaN") is a value a query can produce
         if k == 'decimal':
             return rng.choice([D('0'), D('1'), D('-2.5'), D('100.120'), D('0.001'), D('1E+2'), D('1.5E+3'), D('1E-8'), D('-0.00001234'), D('12345.678'), D('-7')])
         if k == 'str' and wide and rng.random() < 0.4:
@@ -246,6 +248,10 @@ def check_text(ctx, desc, rows, kinds, dc, opts, case, route='direct'):
         return None
     except Exception as exc:  # noqa: BLE001
         ctx.violation(raise_mech('render_text', exc, rows), f'render_text raised {type(exc).__name__}: {exc}', case)
+        ctx.count('obs.renderer_refusals')
+        if out.getvalue():
+            # whatever follows on the same output (the next statement of a shell session) would be preceded by this fragment
+            ctx.violation('c16.partial_output_after_refusal', f'render_text raised {type(exc).__name__} after having written {out.getvalue()[:60]!r}', case)
         return None
     text = out.getvalue()
     lines = text.split('\n')
@@ -352,7 +358,7 @@ def check_text(ctx, desc, rows, kinds, dc, opts, case, route='direct'):
                 if back is None or back.as_tuple() != v.as_tuple():
                     ctx.violation('c16.cell_text.decimal', f'decimal {v!r} rendered as {first!r}', case)
                     return None
-                if v.as_tuple().exponent <= 0 and 'E' not in s:
+                if v.is_finite() and v.as_tuple().exponent <= 0 and 'E' not in s:
                     dot_positions[ci].add(first.find('.') if '.' in first else len(first.rstrip()))
                 continue
             joined = ' '.join(texts)
@@ -423,6 +429,9 @@ def check_csv(ctx, desc, rows, kinds, dc, opts, case, text_cells=None, route='di
             query_render.render_csv(desc, rows, dc, out, expand=opts['expand'], nullvalue=opts['nullvalue'])
     except Exception as exc:  # noqa: BLE001
         ctx.violation(raise_mech('render_csv', exc, rows), f'render_csv raised {type(exc).__name__}: {exc}', case)
+        ctx.count('obs.renderer_refusals')
+        if out.getvalue():
+            ctx.violation('c16.partial_output_after_refusal', f'render_csv raised {type(exc).__name__} after having written {out.getvalue()[:60]!r}: a header without records', case)
         return
     recs = list(csv.reader(io.StringIO(out.getvalue())))
     ctx.count('obs.csv_renderings')
